@@ -686,3 +686,59 @@ def check_recursion_options(run, funcs, rule='R10r'):
             else:
                 run.holds(rule, f.key, construct, 'every option (%s) is passed on' % ', '.join(opts), f=f, node=c)
     return n
+
+
+# --------------------------------------------------------------------------- R10l: unconstrained length -> broadcasting store
+def check_broadcast_stores(run, funcs, rule='R10l'):
+    """A vector normalised by getvector WITHOUT a dimension (any length accepted) that is written into a slice of a
+    fixed-size array must be dominated by a test of its length (len / .shape / .size in a comparison, either polarity,
+    whose failing edge raises): numpy broadcasts a length-1 vector over the slice, so [5] silently becomes [5, 5, 5]."""
+    n = 0
+    for f in funcs:
+        fi = FuncInfo.of(f)
+        free = {}
+        for st in own_walk(f.node):
+            if isinstance(st, ast.Assign) and len(st.targets) == 1 and isinstance(st.targets[0], ast.Name) and isinstance(st.value, ast.Call):
+                c = canon(fi, st.value, inline=False)
+                if isinstance(c, ast.Call) and isinstance(c.func, ast.Name) and c.func.id == 'getvector':
+                    dim = c.args[1] if len(c.args) > 1 else None
+                    for k in c.keywords:
+                        if k.arg == 'dim':
+                            dim = k.value
+                    if dim is None or (isinstance(dim, ast.Constant) and dim.value is None):
+                        free[st.targets[0].id] = st
+        if not free:
+            continue
+        cfg = CFG(f.node)
+        facts = must_facts(cfg)
+        reach = cfg.reachable()
+        for node in cfg.nodes:
+            a = node.ast
+            if node.id not in reach or node.kind != 'stmt' or not isinstance(a, ast.Assign):
+                continue
+            for t in a.targets:
+                if not (isinstance(t, ast.Subscript) and isinstance(a.value, ast.Name) and a.value.id in free):
+                    continue
+                if not any(isinstance(x, ast.Slice) for x in ast.walk(t.slice)):
+                    continue
+                v = a.value.id
+                n += 1
+                fs = facts.get(node.id, frozenset())
+                tested = False
+                for fc in fs:
+                    e = fc[2].ast
+                    if isinstance(e, ast.Compare):
+                        txt = ast.unparse(e)
+                        if ('%s.shape' % v) in txt or ('len(%s)' % v) in txt or ('%s.size' % v) in txt:
+                            tested = True
+                    elif isinstance(e, ast.Call) and ast.unparse(e.func).endswith('isvector') and e.args and \
+                            isinstance(e.args[0], ast.Name) and e.args[0].id == v and len(e.args) > 1:
+                        tested = True
+                construct = 'store %s <- %s' % (src(t, 30), v)
+                if tested:
+                    run.holds(rule, f.key, construct, 'the length of %s is tested on every path to the store' % v, f=f, node=a)
+                else:
+                    run.violation(rule, f.key, construct, '%s = getvector(..) accepts any length and is written into the slice %s with no test '
+                                  'of its length on the way: a 1-element vector (or scalar) is broadcast over the slice instead of being '
+                                  'rejected' % (v, src(t, 30)), f=f, node=a)
+    return n
